@@ -49,6 +49,7 @@ type Config struct {
 	Solver      string // primary solver: z3 (default), z3-new, cvc5
 	Params      map[string]int // tier bounds visible to the harness through verifParam
 	Summaries   map[string][]int // pure callees explored separately and merged (value: result indices replaced by zero)
+	NoFastPath  bool             // never decide by finite-domain evaluation: every feasibility and assertion question goes to the solver
 }
 
 func (c *Config) isNoop(path string) bool {
